@@ -98,3 +98,26 @@ package types
 //@ func Siacoins
 //@   prop C15
 //@   ensures @exact u128(result) == n * 10^24
+
+// ------------------------------------------------------------------ types.go
+
+//@ func (V2FileContract).RiskedCollateral
+//@   prop C17
+//@   panics-iff u128(fc.TotalCollateral) < u128(fc.MissedHostValue)
+//@   ensures @exact u128(result) == u128(fc.TotalCollateral) - u128(fc.MissedHostValue)
+
+//@ func (V2FileContract).RiskedHostRevenue
+//@   prop C17
+//@   panics-iff u128(fc.HostOutput.Value) < u128(fc.TotalCollateral)
+//@   ensures @exact u128(result) == u128(fc.HostOutput.Value) - u128(fc.TotalCollateral)
+
+//@ func (V2FileContract).MissedHostOutput
+//@   prop C17 C07
+//@   ensures result.Value == fc.MissedHostValue && result.Address == fc.HostOutput.Address
+
+// ------------------------------------------------------------------- hash.go
+// Hash-valued functions whose result is used only as an opaque commitment are
+// modelled as uninterpreted functions of their arguments (T9).
+
+//@ func (UnlockConditions).UnlockHash
+//@   abstract
